@@ -221,10 +221,16 @@ func checkRoundTripValidated(r *Reporter, p *Prog, pkg string, info *types.Info)
 							return false
 						}
 						pair := func(a, b string) bool { return rel.L == a && rel.R == b || rel.L == b && rel.R == a }
-						if be.Op == token.MUL {
-							return pair("("+res+"/"+x+")", y) || pair("("+res+"/"+y+")", x)
+						// the result may be spelled by its variable or (canonical keys) by the product itself
+						for _, rk := range []string{res, exprKey(be)} {
+							if be.Op == token.MUL && (pair("("+rk+"/"+x+")", y) || pair("("+rk+"/"+y+")", x)) {
+								return true
+							}
+							if be.Op == token.SHL && pair("("+rk+">>"+y+")", x) {
+								return true
+							}
 						}
-						return pair("("+res+">>"+y+")", x)
+						return false
 					})
 					isValid := func(e Edge) bool {
 						for _, v := range valid {
